@@ -61,7 +61,7 @@ func reg(p *propInfo) {
 var updMatrix = []string{"", "true", "clean", "yes"}
 
 // C05 enumerates more representatives of "any other string": spellings a lenient parser would accept
-var updMatrixWide = []string{"", "true", "clean", "yes", "TRUE", "1", "true ", "CLEAN", "t", "false"}
+var updMatrixWide = []string{"", "true", "clean", "yes", "TRUE", "1", "true ", "CLEAN", "t", "false", "always", "force"}
 
 func init() {
 	for _, id := range []string{"C01", "C02", "C03", "C04", "C16", "C17", "C18", "C19"} {
